@@ -1118,7 +1118,10 @@ impl<K: EnrKey> Encodable for Enr<K> {
 
 impl<K: EnrKey> Decodable for Enr<K> {
     fn decode(buf: &mut &[u8]) -> Result<Self, DecoderError> {
-        if buf.len() > MAX_ENR_SIZE {
+        // The size limit applies to the record item itself, not to what follows it in the buffer.
+        let mut item = *buf;
+        let header = Header::decode(&mut item)?;
+        if (buf.len() - item.len()) + header.payload_length > MAX_ENR_SIZE {
             return Err(DecoderError::Custom("enr exceeds max size"));
         }
 
